@@ -248,4 +248,123 @@ theorem load_named (table : String → Option Cal) (j : JVal) (nm : String)
   all_goals first | cases h | skip
   exact ⟨_, _, ‹namedTryNew table _ = .ok _›⟩
 
+/-! ### curves -/
+
+/-- the shape invariant of a loaded curve's nodes: every dual-number node passed its validating model -/
+def NodesOK : NodesShape → Prop
+  | .f64 _ => True
+  | .dual l => ∀ d ∈ l, d.nvars = d.ndual
+  | .dual2 l => ∀ d ∈ l, d.nvars = d.ndual ∧ d.rows = d.nvars ∧ d.cols = d.nvars
+
+theorem mem_lastPerKey {α : Type} (l : List (Int × α)) (x : α) (h : x ∈ lastPerKey l) :
+    ∃ k, (k, x) ∈ l := by
+  unfold lastPerKey at h
+  simp only [List.mem_filterMap] at h
+  obtain ⟨k, _, hk⟩ := h
+  cases hl : (l.filter (fun kv => kv.1 == k)).getLast? with
+  | none => rw [hl] at hk; cases hk
+  | some p =>
+    rw [hl] at hk
+    simp only [Option.map_some, Option.some.injEq] at hk
+    have hm : p ∈ l.filter (fun kv => kv.1 == k) := List.mem_of_getLast? hl
+    have := (List.mem_filter.1 hm).1
+    exact ⟨p.1, by rw [← hk]; exact this⟩
+
+theorem asI64Map_mem {α : Type} (elem : JVal → Option α) (j : JVal) (l : List (Int × α))
+    (h : asI64Map elem j = some l) : ∀ p ∈ l, ∃ j', elem j' = some p.2 := by
+  cases j with
+  | obj kvs =>
+    simp only [asI64Map] at h
+    intro p hp
+    obtain ⟨kv, _, hkv⟩ := mapM_mem _ kvs l h p hp
+    cases hk : parseI64Key kv.1 with
+    | none => simp [hk] at hkv
+    | some k =>
+      cases he : elem kv.2 with
+      | none => simp [hk, he] at hkv
+      | some v =>
+        simp [hk, he] at hkv
+        exact ⟨kv.2, by rw [he, ← hkv]⟩
+  | _ => simp [asI64Map] at h
+
+theorem load_nodes (j : JVal) (s : NodesShape) (h : loadNodes j = some s) : NodesOK s := by
+  unfold loadNodes at h
+  split at h
+  · rw [Option.map_eq_some_iff] at h
+    obtain ⟨l, _, rfl⟩ := h
+    trivial
+  · rw [Option.map_eq_some_iff] at h
+    obtain ⟨l, hl, rfl⟩ := h
+    intro d hd
+    obtain ⟨k, hk⟩ := mem_lastPerKey l d hd
+    obtain ⟨j', hj'⟩ := asI64Map_mem loadDual _ l hl (k, d) hk
+    exact load_dual j' d hj'
+  · rw [Option.map_eq_some_iff] at h
+    obtain ⟨l, hl, rfl⟩ := h
+    intro d hd
+    obtain ⟨k, hk⟩ := mem_lastPerKey l d hd
+    obtain ⟨j', hj'⟩ := asI64Map_mem loadDual2 _ l hl (k, d) hk
+    exact load_dual2 j' d hj'
+  · cases h
+
+/-- A curve loaded from ANY JSON tree: every dual-number node is well shaped, the interpolation rule,
+day-count convention, modifier and calendar kind are ones the library defines. -/
+theorem load_curve (table : String → Option Cal) (j : JVal) (s : CurveShape)
+    (h : loadCurve table j = some s) :
+    NodesOK s.nodes ∧ s.interpolator ∈ interpolatorNames ∧ s.convention ∈ conventionNames ∧
+    s.modifier ∈ modifierNames ∧ s.calendar ∈ ["Cal", "UnionCal", "NamedCal"] := by
+  unfold loadCurve at h
+  split at h
+  · rename_i i _
+    obtain ⟨ji, _, hi⟩ := req_some _ _ _ h
+    unfold loadCurveDF at hi
+    split at hi
+    · split at hi
+      · rename_i n i' d c m b k hn hi' hd hc hm hb hk
+        injection hi with hi
+        subst hi
+        obtain ⟨jn, _, hjn⟩ := req_some _ _ _ hn
+        obtain ⟨jI, _, hjI⟩ := req_some _ _ _ hi'
+        obtain ⟨jc, _, hjc⟩ := req_some _ _ _ hc
+        obtain ⟨jm, _, hjm⟩ := req_some _ _ _ hm
+        obtain ⟨jk, _, hjk⟩ := req_some _ _ _ hk
+        refine ⟨load_nodes jn _ hjn, ?_, ?_, ?_, ?_⟩
+        · unfold loadInterpolator at hjI
+          split at hjI
+          · split at hjI
+            · rename_i hcond
+              injection hjI with hjI
+              subst hjI
+              simp only [Bool.and_eq_true] at hcond
+              exact List.contains_iff_mem.mp hcond.1 |> fun h => by simpa using h
+            · cases hjI
+          · cases hjI
+        · unfold unitEnumOf at hjc
+          split at hjc
+          · split at hjc
+            · rename_i hcond; injection hjc with hjc; subst hjc; simpa using hcond
+            · cases hjc
+          · split at hjc
+            · rename_i hcond; injection hjc with hjc; subst hjc; simpa using hcond
+            · cases hjc
+          · cases hjc
+        · unfold unitEnumOf at hjm
+          split at hjm
+          · split at hjm
+            · rename_i hcond; injection hjm with hjm; subst hjm; simpa using hcond
+            · cases hjm
+          · split at hjm
+            · rename_i hcond; injection hjm with hjm; subst hjm; simpa using hcond
+            · cases hjm
+          · cases hjm
+        · unfold loadCalType at hjk
+          split at hjk
+          · rw [Option.map_eq_some_iff] at hjk; obtain ⟨_, _, rfl⟩ := hjk; simp
+          · rw [Option.map_eq_some_iff] at hjk; obtain ⟨_, _, rfl⟩ := hjk; simp
+          · rw [Option.map_eq_some_iff] at hjk; obtain ⟨_, _, rfl⟩ := hjk; simp
+          · cases hjk
+      · cases hi
+    · cases hi
+  · cases h
+
 end Rateslib
